@@ -134,6 +134,10 @@ func (mt *MarkdownTable) RenderTo(w io.Writer) error {
 		}
 		var al align.Alignment
 		alRaw := mt.Column(i + 1).GetProperty(align.PropertyType)
+		if alRaw == nil {
+			// column 0 holds the default for all columns, as for text tables
+			alRaw = mt.Column(0).GetProperty(align.PropertyType)
+		}
 		if alRaw != nil {
 			al = alRaw.(align.Alignment)
 			alignments[i] = al
